@@ -63,6 +63,7 @@ def late_faults(cfg, model):
                 out.append(("bad", "add", t, "label_long", 1))
         elif t in model.live:
             out.append(("bad", "replace", t, "comment_noncp", 0))
+            out.append(("bad", "replace", t, "comment_long", 0))     # exactly one byte too long (256)
     return out
 
 
@@ -94,6 +95,9 @@ def chain_configs(tier, deep=False):
         out.append(kdriver.Config("chain-N3", 3, [], tr[0], 1, edited=True))
         out.append(kdriver.Config("chain-N14-new", 14, "new", tr[1][:2], 1, edited=True))
         out.append(kdriver.Config("chain-N4-pre2", 4, [kdriver.known_record(tr[2][0], 0), kdriver.known_record(tr[2][1], 1)], tr[2], 1))
+        # three blocks already there: two removals and an add in one context, with a survivor to be hurt
+        out.append(kdriver.Config("chain-N5-pre3", 5, [kdriver.known_record(tr[3][0], 0), kdriver.known_record(tr[3][1], 1),
+                                                       kdriver.opaque_record(6)], tr[3], 1))
         if tier == "thorough":
             out.append(kdriver.Config("chain-N4-opaque", 4, [kdriver.opaque_record(1)], tr[2], 1, junk=True))
     return out
